@@ -22,7 +22,7 @@ OBLIGATIONS += apply_obls("d")
 
 META = {
     "level": "model_checking",
-    "level_text": "Bounded model checking (CBMC) of the ordering obligations that make a synced write durable, on the real code of each unit with monitoring stubs at the env boundary: ldb_write returns success for a sync write only after the record was appended AND ldb_wfile_sync on the current log succeeded; a memtable flush hands the MANIFEST an edit naming the current log only after the level-0 table was built, and old logs/tables are unlinked only by the GC pass that runs after a successful MANIFEST apply, by the keep rules of C13; a latched error stops all deletion.",
+    "level_text": "Bounded model checking (CBMC) of the ordering obligations that make a synced write durable, on the real code of each unit with monitoring stubs at the env boundary: ldb_write returns success for a sync write only after the record was appended AND ldb_wfile_sync on the current log succeeded; a memtable flush hands the MANIFEST an edit naming the current log only after the level-0 table was built, and old logs/tables are unlinked only by the GC pass that runs after a successful MANIFEST apply, by the keep rules of C13; a latched error stops all deletion; ldb_build_table reports success only after add/finish/sync/close/verify all succeeded in that order; ldb_versions_apply writes and syncs snapshot+edit before switching CURRENT and installing the version; the POSIX writable file hands every byte to write(2) once and in order, flushes before fsync and syncs the directory first for MANIFEST files.",
     "level_note": "Trusted: CBMC semantics; the stubs at the env/log/version-set boundary; the prose composition of the per-unit obligations into the crash-model statement (each file keeps its synced prefix, directory operations persist in order). No byte-exact crash image is materialised and recovery of the image is C03/C05/C15.",
     "bounds": ["one API step (write / flush / GC) from an arbitrary state with symbolic env results", "<=5 directory entries, <=3 live tables, <=2 pending outputs in the GC harness"],
     "outside": ["torn sectors inside a synced prefix", "whole histories"],
